@@ -307,17 +307,23 @@ M("c03_try_with_checkpoint_after_alloc", ["C03"], ["C03.R6"], [
 M("c03_reset_to_pos_only", ["C03"], ["C03.R3"], [
     ("src/raw_bump.rs", """            checkpoint.reset_within_chunk();
 
-            self.chunk.set(RawChunk {
+            let chunk = RawChunk {
                 header: checkpoint.chunk.cast(),
                 marker: PhantomData,
-            });""", """            checkpoint.reset_within_chunk();
+            };
 
-            if self.chunk.get().header.cast() == checkpoint.chunk { return; }
-            if checkpoint.address.get() % 2 == 0 { return; }
-            self.chunk.set(RawChunk {
+            self.chunk.set(chunk);
+""", """            checkpoint.reset_within_chunk();
+
+            let chunk = RawChunk {
                 header: checkpoint.chunk.cast(),
                 marker: PhantomData,
-            });""")])
+            };
+
+            if checkpoint.address.get() % 2 == 1 {
+                self.chunk.set(chunk);
+            }
+""")])
 M("c03_guard_drop_does_nothing_when_no_alloc", ["C03"], ["C03.R2"], [
     ("src/bump_scope_guard.rs", """    fn drop(&mut self) {
         self.reset();
@@ -1139,41 +1145,34 @@ M("c01_bump_up_fast_path_align_with_min_align", ["C01"], ["C01.R6"], [
 
         if size_is_const && layout.size() < MIN_CHUNK_ALIGN {""")])
 M("c01_prepare_down_no_remaining_check", ["C01"], ["C01.R7"], [
-    ("src/bumping.rs", """    let remaining = end.wrapping_sub(start) as isize;
+    ("src/bumping.rs", """    // DUMMY_CHUNK: `end - start` will always return `-16`
+    let remaining = end.wrapping_sub(start) as isize;
+
+    if unlikely(layout.size() as isize > remaining) {
+        return None;
+    }""", """    // DUMMY_CHUNK: `end - start` will always return `-16`
+    let remaining = end.wrapping_sub(start) as isize;
+
+    if unlikely(remaining < 0) {
+        return None;
+    }""")])
+M("c01_prepare_up_end_not_aligned", ["C01"], ["C01.R6"], [
+    ("src/bumping.rs", """    let end = down_align(end, layout.align());
+
+    let remaining = end.wrapping_sub(start) as isize;
 
     if unlikely(layout.size() as isize > remaining) {
         return None;
     }
 
-    // Layout fits, we just trim off the excess to make start aligned.""", """    let remaining = end.wrapping_sub(start) as isize;
+    debug_assert_aligned!(start, layout.align());
+    debug_assert_aligned!(end, layout.align());""", """    let remaining = end.wrapping_sub(start) as isize;
 
-    if unlikely(remaining < 0) {
+    if unlikely(layout.size() as isize > remaining) {
         return None;
     }
 
-    // Layout fits, we just trim off the excess to make start aligned.""")])
-M("c01_prepare_up_end_not_aligned", ["C01"], ["C01.R6"], [
-    ("src/bumping.rs", """    let end = down_align(end, layout.align());
-
-    debug_assert_aligned!(start, layout.align());
-    debug_assert_aligned!(end, layout.align());
-    debug_assert_ne!(start, 0);
-    debug_assert_ne!(end, 0);
-
-    Some(start..end)
-}
-
-/// Prepares""", """    let end = down_align(end, min_align);
-
-    debug_assert_aligned!(start, layout.align());
-    debug_assert_ne!(start, 0);
-    debug_assert_ne!(end, 0);
-
-    Some(start..end)
-}
-
-/// Prepares""")])
-
+    debug_assert_aligned!(start, layout.align());""")])
 M("c02_extend_zeroed_rev_zeroes_wrong_end", ["C02"], ["C02.R3"], [
     ("src/features/bytemuck_or_zerocopy.rs", """                        let new_len = self.len() + additional;
                         self.end.sub(new_len).write_bytes(0, additional);""", """                        let new_len = self.len() + additional;
@@ -1299,7 +1298,7 @@ M("c14_reclaim_only_non_dummy", ["C14"], ["C14.R1"], [
 M("c01_is_last_down_masks_ptr", ["C01"], ["C01.R3"], [
     ("src/allocator_impl.rs", """        ptr == bump.chunk.get().pos()
     }
-}""", """        down_align_usize(ptr.addr().get(), S::MIN_ALIGN) == bump.chunk.get().pos().addr().get()
+}""", """        crate::down_align_usize(ptr.addr().get(), S::MIN_ALIGN) == bump.chunk.get().pos().addr().get()
     }
 }""")])
 M("c13_grow_room_measured_from_pos", ["C13"], ["C13.R3"], [
